@@ -1,9 +1,112 @@
 package main
 
+// F6 contract facts ("axioms"): facts about values the engine cannot derive from the code because they
+// are promised by a documented interface contract. Every use is recorded and reported as an assumed
+// obligation (with the reason and the rule that checks the other side of the contract).
+
 import (
+	"fmt"
+	"go/types"
+	"strings"
+
 	"golang.org/x/tools/go/ssa"
 )
 
-func (p *prover) structFacts(s *factSet, fn *ssa.Function, at ssa.Instruction, seen map[term]bool) {}
+// contract facts about the result of an interface call
+//
+//	r = X.WriteFieldBody(value, record, buf)   (base.LogRewriter)
+//	  0 <= r, r <= len(buf); r <= m for a dominating m = X.MaxFieldLength(value, record)
+//	n, err = r.Read(p) style results are NOT assumed anywhere.
+func (p *prover) contractFacts(s *factSet, t term, seen map[term]bool) {
+	if t.isLn || t.v == nil {
+		return
+	}
+	cl, ok := t.v.(*ssa.Call)
+	if !ok || !cl.Common().IsInvoke() {
+		return
+	}
+	cc := cl.Common()
+	if typeName(cc.Value.Type()) != "base.LogRewriter" {
+		return
+	}
+	switch cc.Method.Name() {
+	case "WriteFieldBody":
+		s.le(zeroT(), t, 0)
+		s.le(t, lenT(cc.Args[2]), 0)
+		p.defs(s, lenT(cc.Args[2]), seen, 1)
+		p.noteUse("contract base.LogRewriter.WriteFieldBody: 0 <= result <= len(buffer)")
+		// a dominating MaxFieldLength call on the same rewriter with the same arguments
+		eachInstr(cl.Parent(), func(in ssa.Instruction) {
+			m, ok := in.(*ssa.Call)
+			if !ok || !m.Common().IsInvoke() || m.Common().Method.Name() != "MaxFieldLength" {
+				return
+			}
+			if !sameValue(m.Common().Value, cc.Value) || !sameValue(m.Common().Args[0], cc.Args[0]) || !sameValue(m.Common().Args[1], cc.Args[1]) {
+				return
+			}
+			if m.Block() != cl.Block() && !m.Block().Dominates(cl.Block()) {
+				return
+			}
+			s.le(t, valT(m), 0)
+			p.noteUse("contract base.LogRewriter: WriteFieldBody result <= MaxFieldLength of the same value and record")
+		})
+	}
+}
+
+// entry facts of contract implementations:
+//
+//	func (T) WriteFieldBody(value, record, buffer): len(buffer) >= MaxFieldLength(value, record); when T's
+//	MaxFieldLength is literally `return len(value)` this gives len(value) <= len(buffer)
+func (p *prover) contractEntryFacts(s *factSet, fn *ssa.Function, seen map[term]bool) {
+	if fn.Signature.Recv() == nil || fn.Name() != "WriteFieldBody" || len(fn.Params) != 4 {
+		return
+	}
+	if !p.implementsRewriter(fn.Signature.Recv().Type()) {
+		return
+	}
+	mx := p.c.P.prog.LookupMethod(fn.Signature.Recv().Type(), fn.Pkg.Pkg, "MaxFieldLength")
+	if mx == nil || mx.Blocks == nil {
+		return
+	}
+	rets := returnedValues(mx, 0)
+	if len(rets) != 1 {
+		return
+	}
+	lc, ok := strip(rets[0].Val).(*ssa.Call)
+	if !ok || !isBuiltin(lc, "len") || strip(lc.Call.Args[0]) != ssa.Value(mx.Params[1]) {
+		return
+	}
+	s.le(lenT(fn.Params[1]), lenT(fn.Params[3]), 0)
+	p.noteUse(fmt.Sprintf("contract base.LogRewriter: %s is given a buffer of at least MaxFieldLength(value) = len(value) bytes (caller side checked by C07.R4)", anchorName(fn)))
+}
+
+func (p *prover) implementsRewriter(t types.Type) bool {
+	if p.rewriterIface == nil {
+		for _, pk := range p.c.P.prog.AllPackages() {
+			if strings.HasSuffix(pk.Pkg.Path(), "/base") && strings.HasPrefix(pk.Pkg.Path(), modPath) {
+				if m, ok := pk.Members["LogRewriter"].(*ssa.Type); ok {
+					p.rewriterIface, _ = m.Type().Underlying().(*types.Interface)
+				}
+			}
+		}
+		if p.rewriterIface == nil {
+			broken("base.LogRewriter interface not found")
+		}
+	}
+	return types.Implements(t, p.rewriterIface)
+}
+
+func (p *prover) noteUse(what string) {
+	for _, u := range p.used {
+		if u == what {
+			return
+		}
+	}
+	p.used = append(p.used, what)
+}
+
+func (p *prover) structFacts(s *factSet, fn *ssa.Function, at ssa.Instruction, seen map[term]bool) {
+	p.contractEntryFacts(s, fn, seen)
+}
 
 func (p *prover) axiom(fn *ssa.Function, at ssa.Instruction, a, b term, c int64) bool { return false }
